@@ -74,6 +74,11 @@ func socksAcceptLoop(ln *pt.SocksListener, config sf.ClientConfig, shutdown chan
 			defer wg.Done()
 			defer conn.Close()
 
+			// Each connection overrides its own copy of the command line
+			// options: the SOCKS options of one connection must not stay
+			// in force for the connections that come after it.
+			config := config
+
 			// Check to see if our command line options are overriden by SOCKS options
 			if arg, ok := conn.Req.Args.Get("ampcache"); ok {
 				config.AmpCacheURL = arg
